@@ -117,7 +117,35 @@ def c19(cx):
             break
 
 
-PLANS = {"C01": c01, "C02": c02, "C03": c03, "C04": c04, "C06": c06, "C07": c07, "C18": c18, "C19": c19}
+def c20(cx):
+    import json, os
+    cx.assumptions += ["the acceptance decision at the uint32 extremes is read from the server's own log line (out of bounds timeslot)",
+                       "the literals 3200 / 432 / 4032 are not exported by the code; they are pinned behaviourally by the C01 and C03 traces "
+                       "and used here as the specification's constants; the rotation period comes from the production build",
+                       "TimeslotToUnix is exact only up to slot 14316557 (uint32 product), the bound the property names"]
+    q = cx.tier == QUICK
+    prod = json.loads(cx.run_tool("prodconsts", "verif"))
+    period = -(-prod["server"]["ReportMigrationFrequencyMs"] // 300000)
+    for sl in (3, 5) if q else (3, 5, 7, 16):
+        cx.mc("MC_Timeslot", "MC_Timeslot.cfg", {"SlotLen": sl, "TDefects": "{}"},
+              workers=4, note="toy word 2^8: all unix times, all (now, timeslot) pairs; 65536 window comparisons")
+    cx.apalache("Apa_Timeslot", ["--cinit=CInit", "--init=Init", "--next=Next", "--inv=Lemmas", "--length=0"], lemmas=5,
+                note="round trip, monotonicity, refusal before genesis, exactness below the overflow bound and window correctness "
+                     "for ALL values at Word=2^32, SlotLen=300, genesis=1700352000 (symbolic, unbounded integers)")
+    cx.cov["checker_cmd"] = "apalache-mc check --cinit=CInit --init=Init --next=Next --inv=Lemmas --length=0 Apa_Timeslot.tla"
+    cx.cov["trusted_base"] = ["Apalache 0.58.0 + z3", "TLC 1.8.0", "Timeslot.tla as a faithful transcription (bound by the sampled conformance run)"]
+    r = cx.drv_ok("timeslot")
+    ev = {"a": "Prod", "genesis": prod["genesis"], "current": prod["current"],
+          "slot_before": (prod["unix_before"] - 1700352000) // 300, "slot_after": (prod["unix_after"] - 1700352000) // 300,
+          "trigger": 3200, "period": period, "window": 4032, "scn": "production-build", "seq": 0}
+    with open(r["trace"], "a") as f:
+        f.write(json.dumps(ev) + "\n")
+    cx.cov["samples"].append(ev)
+    cx.validate("Trace_Timeslot", "Trace_Timeslot.cfg", r["trace"],
+                what="real UnixToTimeslot/TimeslotToUnix sampled by stride and randomly; handler decisions at uint32 extremes; production constants")
+
+
+PLANS = {"C01": c01, "C02": c02, "C03": c03, "C04": c04, "C06": c06, "C07": c07, "C18": c18, "C19": c19, "C20": c20}
 
 
 def replay(cx, path):
